@@ -9,6 +9,9 @@ use std::collections::BTreeSet;
 
 pub struct C20;
 
+/// avoid tag of the registered known finding "FCntUp only advances when the receive procedure ends"
+pub const TAG_MID_PROCEDURE_CUT: &str = "nb-mid-procedure-power-cut";
+
 fn run_quiet(case: &MacCase) -> (World, RunStats, Option<Violation>) {
     let mut w = World::new(&case.cfg);
     let mut stats = RunStats::default();
@@ -41,9 +44,15 @@ fn run_quiet(case: &MacCase) -> (World, RunStats, Option<Violation>) {
 }
 
 /// What must be equal between the original that keeps running and the device restored from storage.
-fn compare(case: &MacCase, w1: &World, w2: &World) -> Option<(String, String)> {
+fn compare(case: &MacCase, w1: &World, w2: &World) -> Option<(String, String, &'static str)> {
+    let mut ctx: &'static str = "";
     for (i, (a, b)) in w1.records.iter().zip(w2.records.iter()).enumerate() {
         if matches!(case.ops[i], Op::SaveRestore) {
+            continue;
+        }
+        if a.result == OpResult::PowerCut {
+            // the rest of this procedure never happened on the restored device
+            ctx = "after-mid-procedure-power-cut";
             continue;
         }
         let ta: Vec<Vec<u8>> = tx_events(w1, a).into_iter().map(|t| t.bytes).collect();
@@ -52,22 +61,23 @@ fn compare(case: &MacCase, w1: &World, w2: &World) -> Option<(String, String)> {
             return Some((
                 "C20.restored-uplink-differs".into(),
                 format!("operation #{i} ({}): the restored device handed {:?} to the radio, the original that was never power-cycled {:?}", case.ops[i].kind(), ta.iter().map(|b| hex(b)).collect::<Vec<_>>(), tb.iter().map(|b| hex(b)).collect::<Vec<_>>()),
+                ctx,
             ));
         }
         if a.result != b.result {
-            return Some(("C20.restored-decision-differs".into(), format!("operation #{i} ({}): restored device {:?}, original {:?}", case.ops[i].kind(), a.result, b.result)));
+            return Some(("C20.restored-decision-differs".into(), format!("operation #{i} ({}): restored device {:?}, original {:?}", case.ops[i].kind(), a.result, b.result), ctx));
         }
         let mut da = a.downlinks.clone();
         let mut db = b.downlinks.clone();
         da.sort();
         db.sort();
         if da != db {
-            return Some(("C20.restored-decision-differs".into(), format!("operation #{i}: delivered downlinks differ between the restored device and the original")));
+            return Some(("C20.restored-decision-differs".into(), format!("operation #{i}: delivered downlinks differ between the restored device and the original"), ctx));
         }
         let sa = a.snap_after.as_ref().and_then(|s| s.session.clone());
         let sb = b.snap_after.as_ref().and_then(|s| s.session.clone());
         if sa != sb {
-            return Some(("C20.restored-state-differs".into(), format!("operation #{i} ({}): session of the restored device {:?}, of the original {:?}", case.ops[i].kind(), sa, sb)));
+            return Some(("C20.restored-state-differs".into(), format!("operation #{i} ({}): session of the restored device {:?}, of the original {:?}", case.ops[i].kind(), sa, sb), ctx));
         }
     }
     None
@@ -141,7 +151,7 @@ impl Property for C20 {
             Tier::Thorough => 20_000_000,
         }
     }
-    fn generate(&self, seed: u64, run: u64, _tier: Tier, _avoid: &BTreeSet<String>) -> MacCase {
+    fn generate(&self, seed: u64, run: u64, _tier: Tier, avoid: &BTreeSet<String>) -> MacCase {
         let mut r = Rng::new(run_seed(seed, "C20", run));
         let mut cfg = gen_cfg(&mut r, &CfgProfile { frontends: ALL_FRONTENDS, otaa_pct: 20, boundary_counters_pct: 60, join_bias_pct: 10 });
         let mutation_mode = run % 3 == 0;
@@ -194,6 +204,15 @@ impl Property for C20 {
             ops.push(gen_send(&mut r, true));
             return MacCase { cfg, ops, knob: 1 };
         }
+        // nb: a crash point between two events of an uplink procedure (the session is readable there)
+        if nb && !avoid.contains(TAG_MID_PROCEDURE_CUT) && r.chance(1, 4) {
+            // (uncollected downlinks die with the power: keep the application diligent in these runs)
+            cfg.lazy_app = false;
+            let mut t = Txn::default();
+            t.nb_power_cut = Some(r.range(1, 2) as u8);
+            let at = r.range(if cfg.otaa { 1 } else { 0 }, ops.len() as i64) as usize;
+            ops.insert(at, Op::Send { port: 7, len: 2, confirmed: r.chance(1, 3), txn: t });
+        }
         // crash points at arbitrary boundaries
         let k = r.range(1, 4);
         for _ in 0..k {
@@ -216,7 +235,9 @@ impl Property for C20 {
             stats.nontrivial = true;
             return Outcome { violation: v1, stats, trace };
         }
-        let restored = w1.env.borrow().counters.get("probe.save-restore").copied().unwrap_or(0) > 0 || w1.env.borrow().mutated_session;
+        let restored = w1.env.borrow().counters.get("probe.save-restore").copied().unwrap_or(0) > 0
+            || w1.env.borrow().counters.get("probe.nb-mid-procedure-power-cut").copied().unwrap_or(0) > 0
+            || w1.env.borrow().mutated_session;
         stats.nontrivial = restored || case.ops.iter().any(|o| matches!(o, Op::RestoreMutated(_)));
         if case.knob == 1 || w1.env.borrow().unspecified_seen > 0 || w1.records.iter().any(|r| r.result.is_panic() || r.result == OpResult::Livelock) {
             return Outcome { violation: None, stats, trace };
@@ -226,6 +247,9 @@ impl Property for C20 {
         for op in twin.ops.iter_mut() {
             if matches!(op, Op::SaveRestore) {
                 *op = Op::Misuse(255);
+            }
+            if let Op::Send { txn, .. } = op {
+                txn.nb_power_cut = None;
             }
         }
         let (w2, s2, _) = run_quiet(&twin);
@@ -262,7 +286,7 @@ impl Property for C20 {
                 }
             }
         }
-        let violation = compare(case, &w1, &w2).map(|(inv, msg)| Violation::new(&inv, "", msg));
+        let violation = compare(case, &w1, &w2).map(|(inv, msg, ctx)| Violation::new(&inv, ctx, msg));
         Outcome { violation, stats, trace }
     }
     fn self_test(&self) -> Result<(), String> {
